@@ -37,6 +37,7 @@ import (
 	"regexp"
 	"sort"
 	"strings"
+	"time"
 
 	"github.com/snapcore/snapd/registry"
 	"github.com/snapcore/snapd/verifkit"
@@ -847,6 +848,117 @@ func CheckRYW(request string, val interface{}, exact bool, rule Flat, got interf
 		return verifkit.Violatef("read-your-write: Set(%q, %s) accepted through the only matching rule %v, Get returns %s which lacks part of it", request, JS(val), rule, JS(got))
 	}
 	return nil
+}
+
+// FSetSpins is the fingerprint of: View.Set never returns when the part of the
+// value that no matching write rule uses contains an empty map (the loop that
+// builds the "value contains unused data under ..." message does not advance
+// on an empty map).
+const FSetSpins = "F-C30-5"
+
+// follow: the unmatched request suffix can be followed into the value.
+func follow(v interface{}, suffix []string) bool {
+	if len(suffix) == 0 {
+		return true
+	}
+	m, ok := v.(map[string]interface{})
+	if !ok {
+		return false
+	}
+	if IsPH(suffix[0]) {
+		for _, c := range m {
+			if !follow(c, suffix[1:]) {
+				return false
+			}
+		}
+		return true
+	}
+	c, ok := m[suffix[0]]
+	return ok && follow(c, suffix[1:])
+}
+
+// without returns what is left of the value when the branch designated by the
+// suffix is taken out (nil: nothing is left).
+func without(v interface{}, suffix []string) interface{} {
+	if len(suffix) == 0 || v == nil {
+		return nil
+	}
+	m, ok := v.(map[string]interface{})
+	if !ok {
+		return nil
+	}
+	out := map[string]interface{}{}
+	for k, c := range m {
+		out[k] = c
+	}
+	for k, c := range m {
+		if IsPH(suffix[0]) || k == suffix[0] {
+			if r := without(c, suffix[1:]); r == nil {
+				delete(out, k)
+			} else {
+				out[k] = r
+			}
+		}
+	}
+	if len(out) == 0 {
+		return nil
+	}
+	return out
+}
+
+func hasEmptyMap(v interface{}) bool {
+	m, ok := v.(map[string]interface{})
+	if !ok {
+		return false
+	}
+	if len(m) == 0 {
+		return true
+	}
+	for _, c := range m {
+		if hasEmptyMap(c) {
+			return true
+		}
+	}
+	return false
+}
+
+// SetSpins: Set(request, val) is a request whose value follows every matching
+// write rule but has an unused rest that contains an empty map (F-C30-5).
+func (m *Model) SetSpins(request string, val interface{}) bool {
+	if !ValidRequest(request) || val == nil {
+		return false
+	}
+	req := Split(request)
+	var rest interface{} = DeepCopy(val)
+	n := 0
+	for _, f := range m.Matching(req) {
+		if !f.Writable() {
+			continue
+		}
+		n++
+		if !follow(val, f.Req[len(req):]) {
+			return false
+		}
+		rest = without(rest, f.Req[len(req):])
+	}
+	return n > 0 && rest != nil && hasEmptyMap(rest)
+}
+
+// Guarded runs a View.Set that SetSpins flags: not at all when the finding is
+// listed as known (the case ends as a known-finding hit), otherwise on a
+// goroutine that is given 20 s to return.
+func Guarded(what string, call func() error) (err error, verdict error) {
+	if verifkit.IsKnown("C30", FSetSpins) {
+		return nil, verifkit.Knownf(FSetSpins, "%s: the unused part of the value contains an empty map: View.Set would never return (not called)", what)
+	}
+	done := make(chan error, 1)
+	go func() { done <- call() }()
+	select {
+	case err := <-done:
+		return err, nil
+	case <-time.After(20 * time.Second):
+		return nil, verifkit.Knownf(FSetSpins, "%s: View.Set did not return within 20 s: the unused part of the value contains an empty map", what)
+	}
 }
 
 // Keys collects every name that can be a top level storage key in the case.
